@@ -129,7 +129,7 @@ def heun_residual(spec, times, states_list, fields, dt, shift=0.0):
     for n in range(len(times) - 1):
         st0 = [s[n] for s in states_list]
         st1 = [s[n + 1] for s in states_list]
-        k1 = f(times[n], st0, fields[n])
-        k2 = f(times[n + 1], st1, fields[n] + dt * k1)
-        worst = max(worst, abs(fields[n + 1] - (fields[n] + dt * (k1 + k2) / 2)))
+        k1 = complex(np.asarray(f(times[n], st0, fields[n])).reshape(-1)[0])      # the equation may return a 1-element array
+        k2 = complex(np.asarray(f(times[n + 1], st1, fields[n] + dt * k1)).reshape(-1)[0])
+        worst = max(worst, float(abs(fields[n + 1] - (fields[n] + dt * (k1 + k2) / 2))))
     return worst
